@@ -512,12 +512,23 @@ def r4_never_loop(body, log, spec_text=''):
     Precondition (checked): every `break` inside the loop (outside nested loops/closures) is `break EXPR;`"""
     mask = code_mask(body)
     m = None
+    label = None
     for mm in re.finditer(r'\blet\s+(\w+)\s*=\s*loop\s*\{', body):
         if mask[mm.start()]:
             m = mm
             var = mm.group(1)
             mode = 'let'
             break
+    if m is None:
+        # labelled form: `let x = 'l: loop { for .. { .. break 'l E; } break E2; };` (breaks may sit inside a nested for)
+        for mm in re.finditer(r"\blet\s+(\w+)\s*=\s*('\w+)\s*:\s*loop\s*\{", body):
+            if mask[mm.start()]:
+                m = mm
+                var = 'verif_loop_value'
+                letvar = mm.group(1)
+                label = mm.group(2)
+                mode = 'let'
+                break
     if m is None:
         for mm in re.finditer(r'\bOk\s*\(\s*loop\s*\{', body):
             if mask[mm.start()]:
@@ -554,6 +565,23 @@ def r4_never_loop(body, log, spec_text=''):
                     break
             j += 1
         expr = inner[mm.end():j].strip()
+        if label is not None:
+            if not expr:
+                continue    # plain `break;` of a nested loop
+            if expr.startswith(label):
+                expr = expr[len(label):].strip()
+                if not expr:
+                    raise LostAnchor('R4 precondition: labelled `break` without value inside never-loop')
+                out.append(inner[last:mm.start()])
+                out.append('{ %s = %s; break %s; }' % (var, expr, label))
+            elif expr.startswith("'"):
+                raise LostAnchor('R4 precondition: `break` to another label inside never-loop')
+            else:
+                out.append(inner[last:mm.start()])
+                out.append('; { %s = %s; break; }' % (var, expr))
+            last = j + 1
+            count += 1
+            continue
         if not expr or expr.startswith("'"):
             raise LostAnchor('R4 precondition: `break` without value (or labelled) inside never-loop')
         out.append(inner[last:mm.start()])
@@ -572,6 +600,9 @@ def r4_never_loop(body, log, spec_text=''):
             k += 1
         if body[k] != ';':
             raise LostAnchor('R4: `let x = loop {..}` not followed by `;`')
+        if label is not None:
+            log.append("R4 labelled never-loop %s: value carried in verif_loop_value, then `let %s = verif_loop_value;`" % (label, letvar))
+            return body[:m.start()] + 'let %s;\n %s: loop %s {' % (var, label, spec_text) + new_inner + '}\n let %s = %s;' % (letvar, var) + body[k + 1:]
         return body[:m.start()] + 'let %s;\n loop %s {' % (var, spec_text) + new_inner + '}' + body[k + 1:]
     else:
         k = close + 1
